@@ -340,3 +340,74 @@ def show_pat(p):
     if k == "prange":
         return f"{show_pat(p[1]) if p[1] else ''}..{show_pat(p[2]) if p[2] else ''}"
     return k
+
+
+# ---- abstract pattern evaluation (finite shapes)
+
+def _suffix2(path):
+    return "::".join(path.split("::")[-2:])
+
+
+def val(variant, *subs):
+    """abstract value: enum variant (named by its last two path segments) with sub-values"""
+    return ("v", variant, list(subs))
+
+
+ANY = ("any",)
+
+
+def pat_match(p, v):
+    """does pattern p match abstract value v?  v: ('v', 'Enum::Variant', [subs]) | ('tuple', [subs]) | ('lit', text) | ANY
+    Returns True/False; raises ValueError on pattern kinds it cannot decide."""
+    k = p[0]
+    if k in ("pwild",):
+        return True
+    if k == "pbind":
+        return True if p[3] is None else pat_match(p[3], v)
+    if k in ("pref", "pbox", "pderef"):
+        return pat_match(p[1], v)
+    if k == "por":
+        return any(pat_match(q, v) for q in p[1])
+    if v == ANY:
+        raise ValueError("refutable pattern against an unknown value")
+    if k == "ppath":
+        return v[0] == "v" and _suffix2(p[1]) == v[1]
+    if k == "pts":
+        if v[0] != "v" or _suffix2(p[1]) != v[1]:
+            return False
+        return _match_seq(p[3], p[4], v[2])
+    if k == "ptuple":
+        if v[0] != "tuple":
+            raise ValueError("tuple pattern against non-tuple")
+        return _match_seq(p[1], p[2], v[1])
+    if k == "plit":
+        if v[0] != "lit":
+            raise ValueError("literal pattern against non-literal")
+        t = ("-" if p[2] else "") + p[1][1]
+        return t == v[1]
+    raise ValueError("unsupported pattern kind " + k)
+
+
+def _match_seq(pats, ddpos, subs):
+    if ddpos is None:
+        if len(pats) != len(subs):
+            raise ValueError("arity mismatch")
+        return all(pat_match(q, s) for q, s in zip(pats, subs))
+    head = pats[:ddpos]
+    tail = pats[ddpos:]
+    if len(head) + len(tail) > len(subs):
+        raise ValueError("arity mismatch")
+    ok = all(pat_match(q, s) for q, s in zip(head, subs[:len(head)]))
+    if tail:
+        ok = ok and all(pat_match(q, s) for q, s in zip(tail, subs[len(subs) - len(tail):]))
+    return ok
+
+
+def eval_match(m, v):
+    """index of the first arm of match node m whose pattern matches abstract value v (guards must be absent)"""
+    for idx, (p, g, b, ln) in enumerate(match_arms(m)):
+        if pat_match(p, v):
+            if g is not None:
+                raise ValueError("guarded arm")
+            return idx
+    return None
